@@ -1,0 +1,49 @@
+//go:build verif
+
+// Contracts for property C05 (references resolve by scope). Verified by govc.
+
+package actionlint
+
+// a step's id enters the steps scope only after every field of the step has been checked: no checker
+// is called once the id has been registered (the registration is the last effect of VisitStep), and
+// the id is registered in lower case with exactly outputs / conclusion / outcome
+//@ ghost stepRegistered: set<ref>
+//@ func (*RuleExpression).VisitStep
+//@   props C05
+//@   anchor
+//@   ensures n.ID != nil ==> rule.stepsTy.Props.has(lower(n.ID.Value))
+
+// needs: exactly the directly needed jobs are in scope
+//@ func (*RuleExpression).calcNeedsType
+//@   props C05
+//@   anchor
+//@   ensures result != nil && result.Mapped == nil
+//@   at_call (*RuleExpression).populateDependantNeedsTypes: out == o && job == job0 && root == job0
+
+// steps scope is fresh and empty for every job
+//@ func (*RuleExpression).VisitJobPre
+//@   ensures [C05] rule.stepsTy != nil && rule.stepsTy.Mapped == nil
+
+// strict objects report unknown properties, loose / mapped ones do not
+//@ func (*ExprSemanticsChecker).checkObjectDeref
+//@   at_call [C05] (*ExprSemanticsChecker).errorf: istype(ty, "*ObjectType") ==> !dyn(ty, "*ObjectType").Props.has(n.Property) && dyn(ty, "*ObjectType").Mapped == nil
+
+// the kinds of object types
+//@ func NewEmptyObjectType
+//@   props C05
+//@   ensures result != nil && result.Mapped != nil && istype(result.Mapped, "AnyType") && result.Props != nil
+//@ func NewObjectType
+//@   props C05
+//@   ensures result != nil && result.Mapped != nil && istype(result.Mapped, "AnyType") && result.Props == props
+//@ func NewEmptyStrictObjectType
+//@   props C05
+//@   ensures result != nil && result.Mapped == nil && result.Props != nil
+//@ func NewStrictObjectType
+//@   props C05
+//@   ensures result != nil && result.Mapped == nil && result.Props == props
+//@ func NewMapObjectType
+//@   props C05
+//@   ensures result != nil && result.Mapped == t && result.Props == nil
+//@ func (*ObjectType).IsStrict
+//@   props C05
+//@   ensures result == (ty.Mapped == nil)
